@@ -332,50 +332,117 @@ Qed.
 Lemma not_stub_none f : fext f = None -> not_stub f.
 Proof. intros E e He. congruence. Qed.
 
-Lemma u0_facts C r :
-  rec_id (round_u0 C r) = frec (lastf C) /\ idx (round_u0 C r) = (fidx (lastf C) + 1)%N /\
-  pid (round_u0 C r) = r_pid r /\ prev (round_u0 C r) = Some (fpid (lastf C)) /\
-  hash (round_u0 C r) = None /\ ext (round_u0 C r) = None.
-Proof. repeat split. Qed.
-
 Lemma good_nonempty mfm C : good mfm C -> C <> [].
 Proof. intros (Hc & _). eapply chain_nonempty; eauto. Qed.
 
 Lemma good_opens mfm C : good mfm C -> open_dir mfm (entries C) = Some C.
 Proof. intros (Hc & _). rewrite open_dir_entries. apply chain_opens, Hc. Qed.
 
-(** An uncommitted newest container: the set opens as committed + that container. *)
-Lemma uncommitted_opens mfm C r d : good mfm C -> round_ok mfm C r ->
+Lemma good_good0 mfm C : good mfm C -> good0 mfm C.
+Proof. right. assumption. Qed.
+
+(** A record of the manifest-aware class is also one of the plain class. *)
+Lemma good_weaken mfm C : good true C -> good mfm C.
+Proof.
+  destruct mfm; [auto|]. intros ([Hb Hl Hn Hco] & Hi & _). split; [|split; [exact Hi | discriminate]].
+  constructor; auto.
+  - destruct Hb as (b & ps & E & H1 & H2 & _). exists b, ps. repeat split; auto. discriminate.
+  - destruct Hco as (l & n & E & H1 & H2 & _). exists l, n. repeat split; auto. discriminate.
+Qed.
+
+Lemma good0_weaken mfm C : good0 true C -> good0 mfm C.
+Proof. intros [->|H]; [left; reflexivity | right; apply good_weaken, H]. Qed.
+
+Lemma chain_single mfm n :
+  fprev n = None -> newest_ok n -> (mfm = true -> mf_ok n) -> chain_ok mfm false [n].
+Proof.
+  intros Hp Hn Hm. constructor.
+  - exists n, []. repeat split; auto.
+  - constructor.
+  - simpl. constructor; [intros [] | constructor].
+  - exists [], n. repeat split; auto.
+Qed.
+
+(** The round's container, in whatever state its user block, payload and sidecar are,
+    continues the committed containers. *)
+Lemma chain_extend mfm C r (u : ublock) d m :
+  good0 mfm C -> ~ In (r_pid r) (map fpid C) ->
+  rec_id u = rec_id (round_u0 C r) -> idx u = idx (round_u0 C r) ->
+  pid u = r_pid r -> prev u = prev (round_u0 C r) ->
+  not_stub (MkFile u d m) -> newest_ok (MkFile u d m) ->
+  (mfm = true -> mf_ok (MkFile u d m)) ->
+  chain_ok mfm false (C ++ [MkFile u d m]).
+Proof.
+  intros [->|(Hc & Hi & Hm)] Hf E1 E2 E3 E4 Hs Hn Hmf.
+  - apply chain_single; auto; unfold fprev; simpl; rewrite E4; reflexivity.
+  - destruct C as [|f C']; [exfalso; eapply chain_nonempty; eauto|].
+    apply chain_snoc; auto; unfold frec, fidx, fprev, fpid; cbn [ub];
+      rewrite ?E1, ?E2, ?E3, ?E4; try reflexivity. exact Hf.
+Qed.
+
+(** An uncommitted newest container: the set opens as committed + that container
+    (whatever the reader class). *)
+Lemma uncommitted_opens mfm C r d : good0 mfm C -> ~ In (r_pid r) (map fpid C) ->
   open_check mfm false (C ++ [MkFile (round_u0 C r) d None]) =
   Some (C ++ [MkFile (round_u0 C r) d None]).
 Proof.
-  intros (Hc & Hi & Hm) (Hf & _). apply chain_opens.
-  apply chain_snoc; auto; try reflexivity.
-  - apply not_stub_none. reflexivity.
-  - left. reflexivity.
-  - intros _ e He. discriminate.
+  intros Hg Hf. apply chain_opens.
+  assert (Eh : hash (round_u0 C r) = None /\ ext (round_u0 C r) = None /\ pid (round_u0 C r) = r_pid r)
+    by (destruct C; repeat split).
+  destruct Eh as (Eh & Ee & Ep).
+  apply (chain_extend mfm C r); auto.
+  - apply not_stub_none. exact Ee.
+  - left. exact Eh.
+  - intros _ e He. unfold fext in He. simpl in He. congruence.
 Qed.
 
-Lemma final_chain mfm C r : good mfm C -> round_ok mfm C r ->
+(** The committed user block written by a writer of class [mfw], seen by a reader of
+    class [mfm], with sidecar [m]. *)
+Lemma committed_chain mfm mfw C r m : good0 mfm C -> ~ In (r_pid r) (map fpid C) ->
+  (mfm = true -> mfw = true -> exists i, m = Some (i, r_mfhash r)) ->
+  chain_ok mfm false (C ++ [MkFile (round_u1 mfw C r) (r_dfin r) m]).
+Proof.
+  intros Hg Hf Hm.
+  assert (Ep : pid (round_u0 C r) = r_pid r) by (destruct C; reflexivity).
+  apply (chain_extend mfm C r); auto.
+  - intros e He. unfold fext in He. simpl in He.
+    destruct mfw; [injection He as <-; reflexivity | discriminate].
+  - right. reflexivity.
+  - intros Em e He. unfold fext in He. simpl in He.
+    destruct mfw; [|discriminate]. injection He as <-.
+    destruct (Hm Em eq_refl) as (i & ->). exists i. reflexivity.
+Qed.
+
+Lemma final_chain mfm C r : good0 mfm C -> round_ok mfm C r ->
   chain_ok mfm false (C ++ [final_file mfm C r]).
 Proof.
-  intros (Hc & Hi & Hm) (Hf & _). apply chain_snoc; auto; try reflexivity.
-  - intros e He. destruct mfm; simpl in He; [injection He as <-; reflexivity | discriminate].
-  - right. reflexivity.
-  - intros -> e He. simpl in He. injection He as <-. exists (r_mfid r). reflexivity.
+  intros Hg (Hf & _). apply committed_chain; auto.
+  intros -> _. exists (r_mfid r). reflexivity.
 Qed.
 
-Lemma good_snoc mfm C r : good mfm C -> round_ok mfm C r -> good mfm (C ++ [final_file mfm C r]).
+Lemma good0_intact mfm C : good0 mfm C -> Forall intact C /\ (mfm = true -> Forall mf_ok C).
+Proof. intros [->|(_ & Hi & Hm)]; auto. Qed.
+
+Lemma good_snoc mfm C r : good0 mfm C -> round_ok mfm C r -> good mfm (C ++ [final_file mfm C r]).
 Proof.
   intros Hg Hr. pose proof (final_chain mfm C r Hg Hr) as Hc.
-  destruct Hg as (_ & Hi & Hm). split; [exact Hc|]. split.
+  destruct (good0_intact _ _ Hg) as (Hi & Hm). split; [exact Hc|]. split.
   - apply Forall_app; split; auto. constructor; auto. reflexivity.
   - intros Em. apply Forall_app; split; auto. constructor; auto. subst mfm.
-    intros e He. simpl in He. injection He as <-. exists (r_mfid r). reflexivity.
+    intros e He. unfold fext in He. simpl in He. injection He as <-. exists (r_mfid r). reflexivity.
 Qed.
 
-(** The committed user block is there but its manifest is not (yet) the committed one. *)
-Lemma manifest_pending C r m : good true C ->
+Lemma good0_last_max mfm C f x : good0 mfm C -> In f C -> (fidx f <= fidx (last C x))%N.
+Proof.
+  intros [->|(Hc & _)] Hf; [destruct Hf|].
+  pose proof (chain_nonempty _ _ _ Hc) as Hne.
+  destruct (exists_last Hne) as (l & y & ->). rewrite last_last.
+  apply (chain_last_max l y); auto. exact (co_links _ _ _ Hc).
+Qed.
+
+(** The committed user block of the manifest-aware class is there but its manifest is
+    not (yet) the committed one: the manifest-aware reader refuses. *)
+Lemma manifest_pending C r m : good0 true C ->
   (forall i, m <> Some (i, r_mfhash r)) ->
   open_check true false (C ++ [MkFile (round_u1 true C r) (r_dfin r) m]) = None.
 Proof.
@@ -383,11 +450,9 @@ Proof.
   apply (manifest_refused false _ n (MkExt false (r_mfid r) (r_mfhash r))).
   - apply in_or_app; right; left; reflexivity.
   - intros f Hf. apply in_app_or in Hf as [Hf|[<-|[]]]; [|lia].
-    destruct Hg as (Hc & _). pose proof (chain_nonempty _ _ _ Hc) as Hne.
-    destruct (exists_last Hne) as (l & x & E). rewrite E in Hf.
-    pose proof (chain_last_max l x) as Hmax. rewrite <- E in Hmax.
-    specialize (Hmax (co_links _ _ _ Hc)). rewrite E in Hmax. specialize (Hmax f Hf).
-    unfold n, fidx in *. simpl. unfold lastf. rewrite E, last_last. lia.
+    destruct C as [|c0 C']; [destruct Hf|].
+    pose proof (good0_last_max true _ f dummy_file Hg Hf) as Hmax.
+    unfold n, fidx in *. simpl. unfold lastf. lia.
   - reflexivity.
   - exact Hm.
 Qed.
@@ -399,13 +464,13 @@ Definition verdict (mfm : bool) (K K' : list file) (s : dir) : Prop :=
   open_dir mfm s = Some K \/
   open_dir mfm s = Some K'.
 
-Lemma shape_verdict mfm C r e : good mfm C -> round_ok mfm C r -> shape mfm C r e ->
+Lemma shape_verdict mfm C r e : good0 mfm C -> round_ok mfm C r -> shape mfm C r e ->
   verdict mfm C (C ++ [final_file mfm C r]) (entries C ++ [e]).
 Proof.
-  intros Hg Hr Hs. unfold verdict. rewrite open_dir_snoc.
+  intros Hg Hr Hs. unfold verdict. rewrite open_dir_snoc. pose proof Hr as (Hf & _).
   destruct Hs as [d m|d| |m Em Hm|].
   - left. reflexivity.
-  - right; left. simpl. eexists. split; [apply uncommitted_opens; auto | reflexivity].
+  - right; left. simpl. eexists. split; [apply uncommitted_opens; auto | destruct C; reflexivity].
   - destruct mfm.
     + left. simpl. apply manifest_pending; auto. intros i; discriminate.
     + right; right; right. simpl. apply chain_opens. apply (final_chain false C r Hg Hr).
@@ -417,36 +482,102 @@ Proof.
     apply chain_opens, final_chain; auto.
 Qed.
 
+(** *** Reader class different from the writer class *)
+
+(** Same containers (user blocks and payloads), sidecars aside. *)
+Definition core (f : file) : ublock * N := (ub f, dig f).
+
+Definition verdict_x (mfr : bool) (K K' : list file) (s : dir) : Prop :=
+  open_dir mfr s = None \/
+  (exists f, open_dir mfr s = Some (K ++ [f]) /\ fhash f = None) \/
+  open_dir mfr s = Some K \/
+  (exists c, open_dir mfr s = Some c /\ map core c = map core K').
+
+Lemma shape_verdict_x mfr mfw C r e : good0 true C -> round_ok mfw C r -> shape mfw C r e ->
+  verdict_x mfr C (C ++ [final_file mfw C r]) (entries C ++ [e]).
+Proof.
+  intros Hg Hr Hs. unfold verdict_x. rewrite open_dir_snoc. pose proof Hr as (Hf & _).
+  pose proof (good0_weaken mfr C Hg) as Hgr.
+  assert (Hcore : forall m, map core (C ++ [MkFile (round_u1 mfw C r) (r_dfin r) m])
+                            = map core (C ++ [final_file mfw C r]))
+    by (intros m; rewrite !map_app; reflexivity).
+  destruct Hs as [d m|d| |m Em Hm|].
+  - left. reflexivity.
+  - right; left. simpl. eexists. split; [apply uncommitted_opens; auto | destruct C; reflexivity].
+  - destruct mfr, mfw.
+    + left. simpl. apply manifest_pending; auto. intros i; discriminate.
+    + right; right; right. simpl. eexists. split; [|apply Hcore].
+      apply chain_opens, committed_chain; auto. discriminate.
+    + right; right; right. simpl. eexists. split; [|apply Hcore].
+      apply chain_opens, committed_chain; auto. discriminate.
+    + right; right; right. simpl. eexists. split; [|apply Hcore].
+      apply chain_opens, committed_chain; auto. discriminate.
+  - subst mfw. destruct mfr.
+    + left. simpl. apply manifest_pending; auto.
+      intros i [= E]. apply Hm. rewrite E. reflexivity.
+    + right; right; right. simpl. eexists. split; [|apply Hcore].
+      apply chain_opens, committed_chain; auto. discriminate.
+  - right; right; right.
+    replace (file_of (entry_of (final_file mfw C r))) with (Some (final_file mfw C r))
+      by (destruct mfw; reflexivity).
+    eexists. split; [|reflexivity]. apply chain_opens. unfold final_file.
+    apply committed_chain; auto. intros _ ->. exists (r_mfid r). reflexivity.
+Qed.
+
+(** A record both classes accept stays one, whichever class writes the next round. *)
+Lemma good_snoc_x mfw C r : good0 true C -> round_ok mfw C r ->
+  good true (C ++ [final_file mfw C r]).
+Proof.
+  intros Hg Hr. pose proof Hr as (Hf & _).
+  destruct (good0_intact _ _ Hg) as (Hi & Hm). split; [|split].
+  - unfold final_file. apply committed_chain; auto. intros _ ->. exists (r_mfid r). reflexivity.
+  - apply Forall_app; split; auto. constructor; auto. reflexivity.
+  - intros _. apply Forall_app; split; auto. constructor; auto.
+    intros e He. unfold fext in He. simpl in He.
+    destruct mfw; [|discriminate]. injection He as <-. exists (r_mfid r). reflexivity.
+Qed.
+
 (** *** Whole histories *)
 
 Definition crash_cases (mfm : bool) (K K' : list file) (s : dir) : Prop :=
-  good mfm K /\
-  (s = entries K \/
-   exists r e, K' = K ++ [final_file mfm K r] /\ round_ok mfm K r /\
-               s = entries K ++ [e] /\ shape mfm K r e).
+  s = entries K \/
+  exists r e, K' = K ++ [final_file mfm K r] /\ round_ok mfm K r /\
+              s = entries K ++ [e] /\ shape mfm K r e.
 
-Lemma crash_cases_hold mfm rs : forall C n, good mfm C -> hist_ok mfm C rs ->
+(** [Inv] is what is known of the committed containers: preserved by complete rounds. *)
+Lemma crash_cases_gen (Inv : list file -> Prop) mfm
+  (Hstep : forall C r, Inv C -> round_ok mfm C r -> Inv (C ++ [final_file mfm C r])) rs :
+  forall C n, Inv C -> hist_ok mfm C rs ->
+  Inv (committed_at mfm C rs n) /\
   crash_cases mfm (committed_at mfm C rs n) (next_committed_at mfm C rs n)
               (crash_state mfm C rs n).
 Proof.
   induction rs as [|r rs IH]; intros C n Hg Hh.
-  - unfold crash_state. simpl. rewrite firstn_nil. split; auto.
+  - unfold crash_state. simpl. rewrite firstn_nil. split; auto. left. reflexivity.
   - destruct Hh as [Hr Hh]. unfold crash_state. cbn [expand committed_at next_committed_at].
     set (k := List.length (round_steps mfm C r)).
     destruct (Nat.leb_spec k n) as [Hle|Hlt].
     + rewrite firstn_app. fold k. rewrite firstn_all2 by (fold k; lia).
       rewrite exec_app, round_exec by assumption.
-      apply (IH (C ++ [final_file mfm C r]) (n - k)); [apply good_snoc; auto | exact Hh].
+      apply (IH (C ++ [final_file mfm C r]) (n - k)); [apply Hstep; auto | exact Hh].
     + rewrite firstn_app. fold k. replace (n - k) with 0 by lia.
       rewrite firstn_O, app_nil_r. split; auto.
       assert (Hin : In (exec (entries C) (firstn n (round_steps mfm C r)))
                        (states (entries C) (round_steps mfm C r)))
         by (apply states_prefix; eauto).
-      apply round_states in Hin; auto. destruct Hin as [->|(e & -> & He)]; auto.
+      apply round_states in Hin; auto. destruct Hin as [->|(e & -> & He)]; [left; auto|].
       right. exists r, e. auto.
 Qed.
 
-Theorem crash_frame mfm C rs n : good mfm C -> hist_ok mfm C rs ->
+Lemma crash_cases_hold mfm rs C n : good0 mfm C -> hist_ok mfm C rs ->
+  good0 mfm (committed_at mfm C rs n) /\
+  crash_cases mfm (committed_at mfm C rs n) (next_committed_at mfm C rs n)
+              (crash_state mfm C rs n).
+Proof.
+  apply (crash_cases_gen (good0 mfm)). intros C' r Hg Hr. right. apply good_snoc; auto.
+Qed.
+
+Theorem crash_frame mfm C rs n : good0 mfm C -> hist_ok mfm C rs ->
   firstn (List.length (committed_at mfm C rs n)) (crash_state mfm C rs n)
   = entries (committed_at mfm C rs n).
 Proof.
@@ -456,25 +587,55 @@ Proof.
     rewrite app_nil_r. apply firstn_all2. unfold entries. rewrite map_length. lia.
 Qed.
 
-Theorem crash_committed_opens mfm C rs n : good mfm C -> hist_ok mfm C rs ->
+(** Nothing committed yet: there is nothing to open; otherwise the committed containers
+    open as themselves. *)
+Theorem crash_committed_opens mfm C rs n : good0 mfm C -> hist_ok mfm C rs ->
+  committed_at mfm C rs n <> [] ->
   open_dir mfm (firstn (List.length (committed_at mfm C rs n)) (crash_state mfm C rs n))
   = Some (committed_at mfm C rs n).
 Proof.
-  intros Hg Hh. rewrite crash_frame by assumption.
-  apply good_opens. apply (crash_cases_hold mfm rs C n Hg Hh).
+  intros Hg Hh Hne. rewrite crash_frame by assumption.
+  destruct (crash_cases_hold mfm rs C n Hg Hh) as ([E|Hk] & _); [contradiction|].
+  apply good_opens, Hk.
 Qed.
 
-Theorem crash_trichotomy mfm C rs n : good mfm C -> hist_ok mfm C rs ->
+Lemma committed_at_extends mfm rs : forall C n, exists l, committed_at mfm C rs n = C ++ l.
+Proof.
+  induction rs as [|r rs IH]; intros C n; cbn [committed_at].
+  - exists []. rewrite app_nil_r. reflexivity.
+  - destruct (List.length (round_steps mfm C r) <=? n).
+    + destruct (IH (C ++ [final_file mfm C r]) (n - List.length (round_steps mfm C r))) as (l & ->).
+      rewrite <- app_assoc. eauto.
+    + exists []. rewrite app_nil_r. reflexivity.
+Qed.
+
+Theorem crash_trichotomy mfm C rs n : good0 mfm C -> hist_ok mfm C rs ->
   verdict mfm (committed_at mfm C rs n) (next_committed_at mfm C rs n) (crash_state mfm C rs n).
 Proof.
   intros Hg Hh.
   destruct (crash_cases_hold mfm rs C n Hg Hh) as (Hk & [->|(r & e & -> & Hr & -> & He)]).
-  - right; right; left. apply good_opens, Hk.
+  - destruct Hk as [->|Hk].
+    + left. reflexivity.
+    + right; right; left. apply good_opens, Hk.
   - apply shape_verdict; auto.
 Qed.
 
+(** Reader of class [mfr] on what a writer of class [mfw] leaves. *)
+Theorem crash_trichotomy_x mfr mfw C rs n : good0 true C -> hist_ok mfw C rs ->
+  verdict_x mfr (committed_at mfw C rs n) (next_committed_at mfw C rs n) (crash_state mfw C rs n).
+Proof.
+  intros Hg Hh.
+  destruct (crash_cases_gen (good0 true) mfw
+              (fun C' r Hg' Hr' => or_intror (good_snoc_x mfw C' r Hg' Hr')) rs C n Hg Hh)
+    as (Hk & [->|(r & e & -> & Hr & -> & He)]).
+  - destruct Hk as [->|Hk].
+    + left. reflexivity.
+    + right; right; left. apply good_opens, good_weaken, Hk.
+  - apply shape_verdict_x; auto.
+Qed.
+
 (** Never accepted as committed with a state that was not written. *)
-Theorem crash_no_phantom mfm C rs n c : good mfm C -> hist_ok mfm C rs ->
+Theorem crash_no_phantom mfm C rs n c : good0 mfm C -> hist_ok mfm C rs ->
   open_dir mfm (crash_state mfm C rs n) = Some c -> fhash (lastf c) <> None ->
   c = committed_at mfm C rs n \/ c = next_committed_at mfm C rs n.
 Proof.
@@ -487,12 +648,13 @@ Qed.
 (** Whenever the whole set opens, the committed containers form a coherent record on
     their own: the removal of the newest container is the one removal that is not a
     fault (C04's [prefix_ok]). *)
-Theorem crash_committed_coherent mfm C rs n c : good mfm C -> hist_ok mfm C rs ->
+Theorem crash_committed_coherent mfm C rs n c : good0 mfm C -> hist_ok mfm C rs ->
+  committed_at mfm C rs n <> [] ->
   open_dir mfm (crash_state mfm C rs n) = Some c ->
   exists drop, Permutation c (committed_at mfm C rs n ++ drop) /\
                coherent mfm false (committed_at mfm C rs n).
 Proof.
-  intros Hg Hh Ho.
+  intros Hg Hh Hne Ho.
   set (K := committed_at mfm C rs n) in *.
   assert (Hacc : exists fs, open_check mfm false fs = Some c).
   { unfold open_dir in Ho.
@@ -500,6 +662,7 @@ Proof.
   destruct Hacc as (fs & Hacc). apply accept_chain in Hacc as [_ Hc].
   assert (Hco : coherent mfm false c) by (exists c; split; [apply Permutation_refl | exact Hc]).
   pose proof (crash_cases_hold mfm rs C n Hg Hh) as (Hk & Hcases). fold K in Hk, Hcases.
+  destruct Hk as [Hk|Hk]; [contradiction|].
   assert (Hpre : exists drop, c = K ++ drop).
   { destruct (crash_trichotomy mfm C rs n Hg Hh) as [E|[(f & E & Ef)|[E|E]]];
       fold K in E; rewrite E in Ho; try discriminate; injection Ho as <-.
@@ -512,7 +675,7 @@ Proof.
   destruct Hpre as (drop & ->). exists drop. split; [apply Permutation_refl|].
   apply (prefix_ok mfm false (K ++ drop) K drop Hco).
   - apply Permutation_refl.
-  - eapply good_nonempty; eauto.
+  - exact Hne.
   - intros k d Hk' Hd. eapply sorted_app_lt; eauto.
     apply linked_sorted, (co_links _ _ _ Hc).
   - intros Em k Hk'. destruct Hk as (_ & _ & Hm). specialize (Hm Em).
@@ -1068,4 +1231,332 @@ Proof.
   intros H1 H2 H3 H4 H5 H6 H7 H8 H9 H10 G1 G2 G3 G4 G5 Hn L0 L1 L2 -> ->. split.
   - apply create_tears_ok; auto.
   - rewrite <- L1. eapply commit_tears_ok; eauto.
+Qed.
+
+(** *** The encoder's output satisfies the side conditions *)
+
+(** All prefixes of [t] (the whole included) keep the scan alive and unfinished. *)
+Definition nofin (s : sst) (t : bytes) : Prop :=
+  forall j, exists s', scan s (firstn j t) = Some s' /\ fin s' = false.
+
+Fixpoint nofinb (s : sst) (t : bytes) : bool :=
+  negb (fin s) &&
+  match t with
+  | [] => true
+  | c :: r => match sstep s c with Some s' => nofinb s' r | None => false end
+  end.
+
+Lemma nofinb_spec t : forall s, nofinb s t = true -> nofin s t.
+Proof.
+  induction t as [|c t IH]; intros s H j; simpl in H; apply andb_true_iff in H as [Hf H];
+    apply negb_true_iff in Hf.
+  - exists s. destruct j; simpl; auto.
+  - destruct j as [|j]; [exists s; simpl; auto|]. simpl.
+    destruct (sstep s c) as [s'|]; [|discriminate]. apply IH, H.
+Qed.
+
+Lemma nofin_app s a b s1 : nofin s a -> scan s a = Some s1 -> nofin s1 b -> nofin s (a ++ b).
+Proof.
+  intros Ha Es Hb j. rewrite firstn_app.
+  destruct (Nat.le_gt_cases j (List.length a)) as [Hle|Hgt].
+  - replace (j - List.length a) with 0 by lia. rewrite firstn_O, app_nil_r. apply Ha.
+  - rewrite firstn_all2 by lia. rewrite scan_app, Es. apply Hb.
+Qed.
+
+Lemma inertb_spec c : inertb c = true ->
+  plainb c = true /\ is_ws c = false /\ (c =? "{")%char = false /\ (c =? "[")%char = false /\
+  (c =? "}")%char = false /\ (c =? "]")%char = false /\ (c =? ":")%char = false.
+Proof.
+  unfold inertb. rewrite andb_true_iff, negb_true_iff, !orb_false_iff. tauto.
+Qed.
+
+Lemma sstep_inert d sk lk c : inertb c = true ->
+  sstep (MkS d false false sk lk false) c = Some (MkS d false false false KOther false).
+Proof.
+  intros H. apply inertb_spec in H as (Hp & H1 & H2 & H3 & H4 & H5 & H6).
+  apply plainb_spec in Hp as (Hq & _). unfold quote in Hq.
+  unfold sstep. simpl. rewrite H1, Hq, H2, H3, H4, H5, H6. reflexivity.
+Qed.
+
+Lemma scan_inert h : forall d sk lk, forallb inertb h = true -> h <> [] ->
+  scan (MkS d false false sk lk false) h = Some (MkS d false false false KOther false) /\
+  nofin (MkS d false false sk lk false) h.
+Proof.
+  induction h as [|c h IH]; intros d sk lk Hh Hne; [congruence|].
+  simpl in Hh. apply andb_true_iff in Hh as [Hc Hh].
+  destruct h as [|c' h'].
+  - split; [simpl; rewrite sstep_inert by exact Hc; reflexivity|].
+    intros [|j]; simpl; [eauto|]. rewrite sstep_inert by exact Hc.
+    destruct j; simpl; eauto.
+  - destruct (IH d false KOther Hh) as [E N]; [discriminate|]. split.
+    + simpl scan at 1. rewrite sstep_inert by exact Hc. exact E.
+    + intros [|j]; [simpl; eauto|]. simpl firstn. simpl scan at 1.
+      rewrite sstep_inert by exact Hc. apply N.
+Qed.
+
+Lemma nofin_plain d sk lk h : forallb plainb h = true ->
+  nofin (MkS d true false sk lk false) h.
+Proof.
+  intros H j. exists (MkS d true false sk lk false). split; [|reflexivity].
+  apply scan_plain. apply forallb_forall. intros x Hx. apply In_firstn in Hx.
+  rewrite forallb_forall in H. auto.
+Qed.
+
+Definition twf (it : titem) : Prop :=
+  match it with
+  | TL _ => True
+  | TS h => forallb plainb h = true
+  | TD h => forallb inertb h = true /\ h <> []
+  end.
+
+(** The scan over a template, without looking into the holes. *)
+Definition tstep (s : sst) (it : titem) : option sst :=
+  match it with
+  | TL l => if nofinb s l then scan s l else None
+  | TS _ => if instr s && negb (esc s) && negb (fin s) then Some s else None
+  | TD _ => if negb (instr s) && negb (esc s) && negb (fin s)
+            then Some (MkS (depth s) false false false KOther false) else None
+  end.
+
+Fixpoint tscan (s : sst) (l : list titem) : option sst :=
+  match l with
+  | [] => Some s
+  | it :: r => match tstep s it with Some s' => tscan s' r | None => None end
+  end.
+
+Lemma tstep_sound s it s' : twf it -> tstep s it = Some s' ->
+  scan s (tflat it) = Some s' /\ nofin s (tflat it).
+Proof.
+  destruct it as [l|h|h]; simpl; intros Hw H.
+  - destruct (nofinb s l) eqn:E; [|discriminate]. split; [exact H | apply nofinb_spec, E].
+  - destruct s as [d i e sk lk f]. simpl in H.
+    destruct i, e, f; simpl in H; try discriminate. injection H as <-.
+    split; [apply scan_plain, Hw | apply nofin_plain, Hw].
+  - destruct s as [d i e sk lk f]. simpl in H.
+    destruct i, e, f; simpl in H; try discriminate. injection H as <-.
+    destruct Hw as [Hw Hne]. apply scan_inert; auto.
+Qed.
+
+Lemma flat_cons it l : flat (it :: l) = tflat it ++ flat l.
+Proof. reflexivity. Qed.
+
+Lemma flat_app a b : flat (a ++ b) = flat a ++ flat b.
+Proof. unfold flat. rewrite map_app, concat_app. reflexivity. Qed.
+
+Lemma tscan_sound l : forall s s', Forall twf l -> tscan s l = Some s' -> fin s = false ->
+  scan s (flat l) = Some s' /\ nofin s (flat l).
+Proof.
+  induction l as [|it l IH]; intros s s' Hw H Hf.
+  - simpl in H. injection H as <-. split; [reflexivity|].
+    intros j. exists s. destruct j; simpl; auto.
+  - inversion Hw; subst. simpl in H. destruct (tstep s it) as [s1|] eqn:E; [|discriminate].
+    destruct (tstep_sound s it s1 H2 E) as [E1 N1].
+    assert (Hf1 : fin s1 = false).
+    { destruct (N1 (List.length (tflat it))) as (x & Ex & Fx).
+      rewrite firstn_all in Ex. congruence. }
+    destruct (IH s1 s' H3 H Hf1) as [E2 N2]. rewrite flat_cons. split.
+    + rewrite scan_app, E1. exact E2.
+    + eapply nofin_app; eauto.
+Qed.
+
+Lemma tightb_intro t : (forall j, j < List.length t -> json_nec (firstn j t) = false) ->
+  tightb t = true.
+Proof.
+  intros H. unfold tightb. apply forallb_forall. intros j Hj. apply in_seq in Hj.
+  apply negb_true_iff, H. lia.
+Qed.
+
+Lemma nofin_tight t c : nofin st0 t -> tightb (t ++ [c]) = true.
+Proof.
+  intros H. apply tightb_intro. intros j Hj. rewrite app_length in Hj. simpl in Hj.
+  rewrite firstn_app. replace (j - List.length t) with 0 by lia. rewrite firstn_O, app_nil_r.
+  destruct (H j) as (s & Es & Fs). unfold json_nec. rewrite Es. exact Fs.
+Qed.
+
+(** Decimal digits are inert. *)
+Lemma uint_inert u :
+  forallb inertb (list_ascii_of_string (DecimalString.NilEmpty.string_of_uint u)) = true.
+Proof. induction u; simpl; auto. Qed.
+
+Lemma string_of_N_inert n :
+  forallb inertb (B (string_of_N n)) = true /\ B (string_of_N n) <> [].
+Proof.
+  unfold string_of_N, B, DecimalString.NilZero.string_of_uint.
+  destruct (N.to_uint n) eqn:E; try (split; [apply (uint_inert (_ u)) | discriminate]).
+  split; [reflexivity | discriminate].
+Qed.
+
+(** Well-formed field texts: UUIDs and hashsums are plain (no quote, backslash, NUL,
+    newline). *)
+Definition wf_head (u : ubhead) : Prop :=
+  forallb plainb (t_rec u) = true /\ forallb plainb (t_pid u) = true /\
+  match t_prev u with Some p => forallb plainb p = true | None => True end.
+
+Definition wf_opt (o : option bytes) : Prop :=
+  match o with Some p => forallb plainb p = true | None => True end.
+
+Definition wf_ext (e : option (bool * bytes * bytes)) : Prop :=
+  match e with
+  | Some (_, i, h) => forallb plainb i = true /\ forallb plainb h = true
+  | None => True
+  end.
+
+Lemma pre_tpl_wf u : wf_head u -> Forall twf (pre_tpl u).
+Proof.
+  intros (H1 & H2 & H3). unfold pre_tpl. destruct (string_of_N_inert (t_idx u)) as [Hd Hne].
+  repeat (apply Forall_cons || apply Forall_app || split); simpl; auto.
+  destruct (t_prev u); simpl; repeat constructor; auto.
+Qed.
+
+Lemma opt_tpl_wf o : wf_opt o -> Forall twf (opt_tpl o).
+Proof. destruct o; simpl; intros H; repeat constructor; auto. Qed.
+
+Lemma rest_tpl_wf e : wf_ext e -> Forall twf (rest_tpl e).
+Proof.
+  destruct e as [[[s i] h]|]; simpl; [intros [H1 H2] | intros _]; repeat constructor; auto.
+Qed.
+
+(** The state after the common prefix: depth 1, outside strings, just after the colon of
+    [hdf5_hashsum]. *)
+Theorem enc_pre_state u : wf_head u ->
+  scan st0 (enc_pre u) = Some (MkS 1 false false false KColon false).
+Proof.
+  intros Hw. unfold enc_pre.
+  refine (proj1 (tscan_sound (pre_tpl u) st0 _ (pre_tpl_wf u Hw) _ eq_refl)).
+  destruct u as [rc ix pd [pv|]]; vm_compute; reflexivity.
+Qed.
+
+Lemma enc_body_scan u h e : wf_head u -> wf_opt h -> wf_ext e ->
+  nofin st0 (flat (pre_tpl u ++ opt_tpl h ++ rest_tpl e)).
+Proof.
+  intros H1 H2 H3.
+  assert (Hw : Forall twf (pre_tpl u ++ opt_tpl h ++ rest_tpl e)).
+  { apply Forall_app; split; [apply pre_tpl_wf; auto|].
+    apply Forall_app; split; [apply opt_tpl_wf; auto | apply rest_tpl_wf; auto]. }
+  assert (E : exists s, tscan st0 (pre_tpl u ++ opt_tpl h ++ rest_tpl e) = Some s).
+  { destruct u as [rc ix pd [pv|]], h as [hh|], e as [[[[|] i] eh]|]; vm_compute; eauto. }
+  destruct E as (s & E). exact (proj2 (tscan_sound _ st0 s Hw E eq_refl)).
+Qed.
+
+Lemma encode_ub_flat u h e :
+  encode_ub u h e = flat (pre_tpl u ++ opt_tpl h ++ rest_tpl e) ++ [rbrace].
+Proof. unfold encode_ub, enc_pre, enc_rest. rewrite !flat_app, <- !app_assoc. reflexivity. Qed.
+
+(** Every strict prefix of an encoded user block fails the necessary condition. *)
+Theorem encode_tight u h e : wf_head u -> wf_opt h -> wf_ext e ->
+  tightb (encode_ub u h e) = true.
+Proof.
+  intros H1 H2 H3. rewrite encode_ub_flat. apply nofin_tight, enc_body_scan; auto.
+Qed.
+
+(** No newline and no NUL in the encoded pieces. *)
+Definition cleanb (c : ascii) : bool := negb ((c =? nl)%char || (c =? nul)%char).
+
+Definition tcleanb (it : titem) : bool :=
+  match it with TL l => forallb cleanb l | _ => true end.
+
+Lemma cleanb_spec l : forallb cleanb l = true -> ~ In nl l /\ ~ In nul l.
+Proof.
+  rewrite forallb_forall. intros H. split; intros Hin; apply H in Hin; vm_compute in Hin;
+    discriminate.
+Qed.
+
+Lemma inert_plain h : forallb inertb h = true -> forallb plainb h = true.
+Proof.
+  rewrite !forallb_forall. intros H x Hx. apply H, inertb_spec in Hx. tauto.
+Qed.
+
+Lemma flat_clean l : Forall twf l -> forallb tcleanb l = true ->
+  ~ In nl (flat l) /\ ~ In nul (flat l).
+Proof.
+  induction l as [|it l IH]; intros Hw Hc; [split; intros []|].
+  inversion Hw; subst. simpl in Hc. apply andb_true_iff in Hc as [Hc1 Hc2].
+  destruct (IH H2 Hc2) as [I1 I2].
+  assert (Hit : ~ In nl (tflat it) /\ ~ In nul (tflat it)).
+  { destruct it as [x|x|x]; simpl in *.
+    - apply cleanb_spec, Hc1.
+    - apply forallb_plain_no, H1.
+    - apply forallb_plain_no, inert_plain, H1. }
+  destruct Hit as [J1 J2]. rewrite flat_cons.
+  split; intros Hin; apply in_app_or in Hin as [Hin|Hin]; auto.
+Qed.
+
+Lemma enc_pre_clean u : wf_head u -> ~ In nl (enc_pre u) /\ ~ In nul (enc_pre u).
+Proof.
+  intros Hw. apply flat_clean; [apply pre_tpl_wf, Hw|].
+  destruct u as [rc ix pd [pv|]]; vm_compute; reflexivity.
+Qed.
+
+Lemma enc_rest_clean e : wf_ext e ->
+  ~ In nl (quote :: enc_rest e) /\ ~ In nul (quote :: enc_rest e).
+Proof.
+  intros Hw. destruct (flat_clean (rest_tpl e) (rest_tpl_wf e Hw)) as [H1 H2].
+  { destruct e as [[[[|] i] h]|]; vm_compute; reflexivity. }
+  unfold enc_rest.
+  split; intros [Hin|Hin]; try discriminate; apply in_app_or in Hin as [Hin|[Hin|[]]]; auto;
+    discriminate.
+Qed.
+
+(** The two texts of a commit are of the shape the byte-level theorems speak about. *)
+Lemma encode_old_shape u : encode_ub u None None = c_ot (enc_pre u).
+Proof. reflexivity. Qed.
+
+Lemma encode_new_shape u h e :
+  encode_ub u (Some h) e = c_nt (enc_pre u) h (quote :: enc_rest e).
+Proof.
+  unfold encode_ub, c_nt. simpl opt_tpl. unfold flat. simpl.
+  rewrite app_nil_r, <- app_assoc. reflexivity.
+Qed.
+
+(** The classification of every torn state of a commit's user-block write, for the blocks
+    the encoder produces: no premise about the texts is left but well-formed fields, a
+    hashsum of at least 19 characters and the block size. *)
+Theorem commit_torn_classes_enc u h e m
+  (loads : bytes -> option ublock) :
+  wf_head u -> forallb plainb h = true -> 19 <= List.length h -> wf_ext e ->
+  let ot := encode_ub u None None in
+  let nt := encode_ub u (Some h) e in
+  let old := head1024 ++ ot ++ repeat nul m in
+  let new := head1024 ++ nt ++ [nul] in
+  List.length nt < List.length ot + m -> List.length nt < 1011 ->
+  (forall t x, loads t = Some x -> json_nec t = true) ->
+  forall k u1, loads nt = Some u1 ->
+  (k <= 13 + List.length (enc_pre u) ->
+   parse_block loads (torn k old new) = parse_block loads old) /\
+  (13 + List.length (enc_pre u) < k -> k < 13 + List.length nt ->
+   parse_block loads (torn k old new) = None) /\
+  (13 + List.length nt <= k -> parse_block loads (torn k old new) = Some u1).
+Proof.
+  intros Hu Hh Hl He ot nt old new Hfit Hshort Hnec k u1 Hload.
+  unfold old, new, ot, nt in *. rewrite encode_old_shape, encode_new_shape in *.
+  destruct (enc_pre_clean u Hu) as [P1 P2]. destruct (enc_rest_clean e He) as [R1 R2].
+  apply (commit_torn_classes (enc_pre u) h (quote :: enc_rest e) m 1 false); auto.
+  - apply enc_pre_state, Hu.
+  - rewrite <- encode_new_shape. apply encode_tight; auto.
+Qed.
+
+(** ... and of the first write of a user block. *)
+Theorem create_tears_enc u M (loads : bytes -> option ublock) :
+  wf_head u ->
+  let t := encode_ub u None None in
+  List.length t < 1011 -> 13 + List.length t < M ->
+  (forall x y, loads x = Some y -> json_nec x = true) ->
+  forall u0, loads t = Some u0 ->
+  tears_ok None u0 (tears_of (parse_block loads) (z_old M) (z_new t)).
+Proof.
+  intros Hu t H1 H2 Hn u0 Hl.
+  assert (Hc : ~ In nl t /\ ~ In nul t).
+  { unfold t. rewrite encode_old_shape. unfold c_ot. destruct (enc_pre_clean u Hu) as [P1 P2].
+    split; intros Hin; apply in_app_or in Hin as [Hin|Hin]; auto; vm_compute in Hin;
+      intuition discriminate. }
+  destruct Hc. apply create_tears_ok; auto. apply encode_tight; simpl; auto.
+Qed.
+
+Corollary crash_committed_opens_good mfm C rs n : good mfm C -> hist_ok mfm C rs ->
+  open_dir mfm (firstn (List.length (committed_at mfm C rs n)) (crash_state mfm C rs n))
+  = Some (committed_at mfm C rs n).
+Proof.
+  intros Hg Hh. apply crash_committed_opens; auto; [right; exact Hg|].
+  destruct (committed_at_extends mfm rs C n) as (l & ->).
+  pose proof (good_nonempty _ _ Hg). destruct C; [congruence | discriminate].
 Qed.
